@@ -35,6 +35,18 @@ TS_PATTERN = (r'^(?P<year>\d{4})-(?P<month>\d{2})-(?P<day>\d{2}) '
 PREFIX = b'p' * 45
 TS_PATTERN2 = (r'^p{45}(?P<year>\d{4})-(?P<month>\d{2})-(?P<day>\d{2}) '
                r'(?P<hours>\d{2}):(?P<minutes>\d{2}):(?P<seconds>\d{2})')
+# Matcher kinds (KIND): 'num' the two numeric patterns above; 'free' the
+# numeric pattern WITHOUT the leading ^ (the library applies patterns with
+# match-at-start semantics); 'mon' two patterns, the first with a month NAME
+# post-processed by an override property `month` (the documented mechanism
+# of TimestampMatcherBase.strptime), the second numeric
+TS_FREE = TS_PATTERN[1:]
+MONTHS = ['Jan', 'Feb', 'Mar', 'Apr', 'May', 'Jun', 'Jul', 'Aug', 'Sep', 'Oct',
+          'Nov', 'Dec']
+TS_MON = (r'^(?P<year>\d{4})-(?P<month>' + '|'.join(MONTHS) +
+          r')-(?P<day>\d{2}) '
+          r'(?P<hours>\d{2}):(?P<minutes>\d{2}):(?P<seconds>\d{2})')
+KIND = ['num']
 EPOCH = datetime.datetime(2000, 1, 1)
 BASE = datetime.datetime(2022, 1, 1)
 FMT = '%Y-%m-%d %H:%M:%S'
@@ -46,11 +58,19 @@ def oracle(window):
     """ the timestamp matcher on the bytes read at a line start, tabulated
     with plain Python: seconds since EPOCH or None """
     text = window.decode('utf-8', errors='backslashreplace')
-    m = re.match(TS_PATTERN, text) or re.match(TS_PATTERN2, text)
+    if KIND[0] == 'free':
+        m = re.match(TS_FREE, text)
+    elif KIND[0] == 'mon':
+        m = re.match(TS_MON, text) or re.match(TS_PATTERN, text)
+    else:
+        m = re.match(TS_PATTERN, text) or re.match(TS_PATTERN2, text)
     if not m:
         return None
+    month = m.group('month')
+    if month in MONTHS:
+        month = MONTHS.index(month) + 1
     try:
-        d = datetime.datetime(int(m.group('year')), int(m.group('month')),
+        d = datetime.datetime(int(m.group('year')), int(month),
                               int(m.group('day')), int(m.group('hours')),
                               int(m.group('minutes')), int(m.group('seconds')))
     except ValueError:
@@ -127,7 +147,23 @@ def _matcher_cls():
         @property
         def patterns(self):
             return [TS_PATTERN, TS_PATTERN2]
-    return TS
+
+    class TSFree(TimestampMatcherBase):
+        @property
+        def patterns(self):
+            return [TS_FREE]
+
+    class TSMon(TimestampMatcherBase):
+        @property
+        def patterns(self):
+            return [TS_MON, TS_PATTERN]
+
+        @property
+        def month(self):
+            """ override property: post-processes the captured group """
+            v = self.result.group('month')
+            return MONTHS.index(v) + 1 if v in MONTHS else v
+    return {'num': TS, 'free': TSFree, 'mon': TSMon}[KIND[0]]
 
 
 class PatchedL(Patched):
@@ -253,7 +289,11 @@ def coq_case(H, A, L, W, c, sinces):
 
 # --------------------------------------------------------------- generators
 def ts_text(t):
-    return (BASE + datetime.timedelta(seconds=t)).strftime(FMT).encode()
+    d = BASE + datetime.timedelta(seconds=t)
+    if KIND[0] == 'mon' and t % 3:
+        return (d.strftime('%Y-') + MONTHS[d.month - 1] +
+                d.strftime('-%d %H:%M:%S')).encode()
+    return d.strftime(FMT).encode()
 
 
 LEN_MARKS = [19, 20, 21, 40, 62, 63, 64, 65, 66, 100, 254, 255, 256, 257,
@@ -402,6 +442,7 @@ def run_cases(chk, tag, items, claim, shard):
     cases, wants_m, wants_s, meta, docs = [], [], [], [], []
     n_eval = 0
     for (H, A, L, W, c, sinces, source) in items:
+        KIND[0] = source.split(':')[0] if ':' in source else 'num'
         path = None
         if source.endswith('/file'):
             path = os.path.join(chk.work, 'c04.log')
@@ -510,6 +551,7 @@ def run_cases(chk, tag, items, claim, shard):
                          'first_in_window': want, 'SEEK_HORIZON': H,
                          'MAX_SEEK_HORIZON_EXPAND': A, 'source': source})
                 break
+    KIND[0] = 'num'
     chk.coverage['evaluations'] += n_eval
     chk.coverage['traces_validated_against_impl'] += n_eval
     chk.coverage.setdefault('phase_s', {})[tag] = {
@@ -520,18 +562,37 @@ def run_cases(chk, tag, items, claim, shard):
 
 def suffix_runs(chk, metas, limit):
     """ results of the REAL FileSearcher with the since constraint == results
-    of the REAL FileSearcher on the suffix that starts at first_in_window """
+    of the REAL FileSearcher on the suffix that starts at first_in_window;
+    plain files, and gzip-compressed files (large, so that the decompressed
+    offset of the first in-window line exceeds the compressed size) """
+    import gzip
     rng = chk.rng
     pool = [m for m in metas if m[7] and 0 < len(m[4]) <= 40000]
     rng.shuffle(pool)
+    big = sorted((m for m in pool if len(m[4]) >= 2000),
+                 key=lambda m: -len(m[4]))[:8]
+    jobs = [(m, False) for m in pool[:limit]] + [(m, True) for m in big]
     done = 0
-    for (H, A, L, W, c, sinces, source, inside) in pool[:limit]:
-        t = rng.choice(sinces)
-        want = ref_first_in_window(c, to_secs(t), W)
-        p1 = os.path.join(chk.work, 'c04_full.log')
+    for (H, A, L, W, c, sinces, source, inside), gz in jobs:
+        KIND[0] = source.split(':')[0] if ':' in source else 'num'
+        wants = [(ref_first_in_window(c, to_secs(t), W), t) for t in sinces]
+        if gz:
+            # the latest start that still leaves something to search
+            mids = [x for x in wants if 0 < x[0] < len(c)]
+            want, t = max(mids) if mids else rng.choice(wants)
+        else:
+            want, t = rng.choice(wants)
+        p1 = os.path.join(chk.work, 'c04_full.log' + ('.1.gz' if gz else ''))
         p2 = os.path.join(chk.work, 'c04_suffix.log')
-        with open(p1, 'wb') as f:
-            f.write(c)
+        if gz:
+            with gzip.open(p1, 'wb') as f:
+                f.write(c)
+            chk.dist('gzip_offset_beyond_compressed_size'
+                     if want >= os.path.getsize(p1)
+                     else 'gzip_offset_within_compressed_size')
+        else:
+            with open(p1, 'wb') as f:
+                f.write(c)
         with open(p2, 'wb') as f:
             f.write(c[want:])
         set_mtime(chk, p1, done)
@@ -541,18 +602,22 @@ def suffix_runs(chk, metas, limit):
         os.unlink(p2)
         done += 1
         chk.coverage['evaluations'] += 1
-        chk.dist('searcher_runs')
+        chk.dist('searcher_runs_gzip' if gz else 'searcher_runs')
         if got != exp:
-            chk.violation('searcher-results-differ-from-suffix-search', {
-                'content': list(c) if len(c) <= 4000 else
-                {'len': len(c), 'head': list(c[:400])},
-                'since': str(to_dt(t)), 'first_in_window': want,
-                'constrained_results': got[:10], 'constrained_count': len(got),
-                'suffix_results': exp[:10], 'suffix_count': len(exp),
-                'SEEK_HORIZON': H, 'MAX_SEEK_HORIZON_EXPAND': A,
-                'MAX_TRY_FIND_WITH_DATE_ATTEMPTS': L})
+            chk.violation(
+                'searcher-results-differ-from-suffix-search'
+                + (' (gzip file)' if gz else ''), {
+                    'content': list(c) if len(c) <= 4000 else
+                    {'len': len(c), 'head': list(c[:400])},
+                    'gzip_compressed': gz, 'matcher': KIND[0],
+                    'since': str(to_dt(t)), 'first_in_window': want,
+                    'constrained_results': got[:10],
+                    'constrained_count': len(got),
+                    'suffix_results': exp[:10], 'suffix_count': len(exp),
+                    'SEEK_HORIZON': H, 'MAX_SEEK_HORIZON_EXPAND': A,
+                    'MAX_TRY_FIND_WITH_DATE_ATTEMPTS': L})
+    KIND[0] = 'num'
     return done
-
 
 
 def growth_runs(chk, n, H0, A0, L0, W0):
@@ -606,6 +671,50 @@ def growth_runs(chk, n, H0, A0, L0, W0):
                  'first_in_window': wants, 'SEEK_HORIZON': H})
 
 
+def other_file_runs(chk, n, H0, A0, L0, W0):
+    """ ONE constraint object applied to file A and then, after A has been
+    closed, to a DIFFERENT file B (which gets A's recycled descriptor
+    number): B must be left at first_in_window of B """
+    from searchkit import constraints as K
+    rng = chk.rng
+    TS = _matcher_cls()
+    for k in range(n):
+        ca, ta = gen_log(rng, rng.choice([2, 3, 5, 8]), H0, ordered=True,
+                         max_run=3)
+        cb, tb = gen_log(rng, rng.choice([2, 3, 5, 8]), H0, ordered=True,
+                         max_run=3)
+        alls = sorted(set(ta + tb)) or [0]
+        t = rng.choice(alls + [alls[0] - 1, alls[-1] + 1])
+        inside = all(all(hypotheses(c, H0, A0, L0, W0)[:4]) for c in (ca, cb))
+        pos = []
+        with PatchedL(H0, A0, L0, W0):
+            cons = K.SearchConstraintSearchSince(
+                current_date=to_dt(t).strftime(FMT), ts_matcher_cls=TS,
+                days=0, hours=0)
+            for name, c in (('c04_a.log', ca), ('c04_b.log', cb)):
+                path = os.path.join(chk.work, name)
+                with open(path, 'wb') as f:
+                    f.write(c)
+                with open(path, 'rb') as fd:
+                    try:
+                        cons.apply_to_file(fd)
+                        pos.append(fd.tell())
+                    except AssertionError:
+                        pos.append(None)
+                os.unlink(path)
+        chk.coverage['evaluations'] += 2
+        chk.dist('other_file_runs')
+        wants = [ref_first_in_window(ca, to_secs(t), W0),
+                 ref_first_in_window(cb, to_secs(t), W0)]
+        if inside and pos != wants:
+            chk.violation(
+                'since-position-differs-from-first-in-window (same '
+                'constraint applied to another file)',
+                {'content_file_a': list(ca), 'content_file_b': list(cb),
+                 'since': str(to_dt(t)), 'impl_positions': pos,
+                 'first_in_window': wants})
+
+
 def run(chk):
     chk.prove(PROPS)
     params = vlib.gen_info()['params']
@@ -623,7 +732,9 @@ def run(chk):
         "= real apply_to_file + tell + seeker.run vs model (in Coq) vs "
         "first_in_window (in Coq and by a plain-Python reference); real "
         "FileSearcher(constraint) vs real FileSearcher on the suffix for a "
-        "sample; tight: lines exactly at the search budget for small patched "
+        "sample (plain and gzip-compressed files); matchers: an unanchored "
+        "pattern, a month-name group with an override property plus a second "
+        "pattern; tight: lines exactly at the search budget for small patched "
         "A; growth: the same constraint applied again after the log grew; "
         "hostile: unordered logs, undated runs > patched L, lines "
         "beyond a patched A*H (model vs implementation only). "
@@ -649,6 +760,21 @@ def run(chk):
                               'len': len(items[5][4]),
                               'sinces': [str(to_dt(t)) for t in items[5][5]],
                               'head': items[5][4][:120].decode()}})
+
+    # structured, other timestamp matchers: a pattern without ^, and a month
+    # name post-processed by an override property (+ a second pattern)
+    for kind in ('free', 'mon'):
+        KIND[0] = kind
+        items = []
+        for k, nl in enumerate([1, 2, 3, 4, 5, 6, 8, 10, 14, 20, 40, 150]
+                               if q else
+                               [1, 2, 3, 4, 5, 6, 8, 10, 14, 20, 40, 150] * 5):
+            c, times = gen_log(rng, nl, H0, ordered=True, max_run=L0 - 1)
+            items.append((H0, A0, L0, W0, c, since_choices(rng, times, 6),
+                          f'{kind}:real/bytesio'))
+        KIND[0] = 'num'
+        chk.dist(f'files_matcher_{kind}', len(items))
+        metas += run_cases(chk, 'matcher_' + kind, items, True, shard=2)
 
     # structured, patched H (and small L), A kept large enough for the lines
     items = []
@@ -739,6 +865,7 @@ def run(chk):
                      'impl_position': res[1], 'first_in_window': want})
 
     growth_runs(chk, 60 if q else 400, H0, A0, L0, W0)
+    other_file_runs(chk, 40 if q else 300, H0, A0, L0, W0)
     done = suffix_runs(chk, metas, 60 if q else 300)
     chk.dist('suffix_comparisons', done)
     nontrivial = set()
